@@ -14,7 +14,7 @@ CHECKS = [
   "Histories with 1-8 restarts; before each restart generated damage (remove / truncate per layout class / written flag cleared / header zeroed / all removed / naturally stale index) is applied to index files; every query and count must equal the model after every step. An enumerated phase truncates the index of a closed blob at a stride of lengths (quick) or at every byte length (thorough) for three key lengths, eager and lazy init.",
   "Damage is applied only to *.index files between two sessions (the domain the statement names). Sampling over histories; the truncation sweep is exhaustive only for its three fixed histories."),
  ("C04", "exploration", "model-based property testing with lifecycle/maintenance operations",
-  "Histories interleave data ops with close/create/restore/force_update/offload/fsync/free and index dumps that complete at generated moments (explicit idle waits vs none, 2-5 ms vs 60 s deferred dumps, both runtime flavours); lifecycle results, all queries and filter answers compared with the model after every step.",
+  "Histories interleave data ops with close/create/restore/force_update/offload/fsync/free and index dumps that complete at generated moments (explicit idle waits vs none, 2-5 ms vs 60 s deferred dumps, both runtime flavours); lifecycle results, all queries (data and count queries) and filter answers compared with the model after every step.",
   "Interleaving of background dumps with client calls is whatever the scheduler produces between two steps; only step boundaries are controlled."),
  ("C05", "fault_enumeration", "round-trip property testing around write-path thresholds + generated <=32-bit corruption bursts located with an independent blob parser",
   "Round trip: generated histories with value lengths centred on the 4 KiB single-pass and 80 KiB background-I/O thresholds (relative to header+meta size), three fill kinds, 7 metadata shapes, compared byte-for-byte through read/read_with/Entry::load/load_data/load_meta in every index state and both runtime flavours, plus an enumerated sweep of lengths 0..8300. Corruption: a stored record's data region is XOR-ed with a <=32-bit burst (storage open, or closed and reopened with/without indexes, validation on/off, quarantine/ignore); every query needing the altered bytes must fail or the blob must have been dropped by a validating init; all other queries must equal the model.",
